@@ -236,3 +236,100 @@ Proof.
   - simpl in Hfr. apply andb_true_iff in Hfr as [H1 H2]. rewrite runf_cons. cbn [fst].
     apply IH; auto. rewrite file_res_frame; auto. now destruct (tags_ref r o).
 Qed.
+
+(* ---------- content never pushed is absent ---------- *)
+Definition dig_absent (g : N) (s : file_store) : Prop :=
+  get N.eqb g (f_d2p s) = None /\ forall k c, get gkey_eqb k (f_cas s) = Some c -> k_dig k <> g.
+
+Lemma dig_absent_fetch g s d : dig_absent g s -> d_dig d = g -> file_fetch d s = None /\ file_exists d s = false.
+Proof.
+  intros [A C] Hd. unfold file_fetch, file_exists. rewrite Hd, A.
+  destruct (get gkey_eqb (gk d) (f_cas s)) as [c|] eqn:E.
+  - exfalso. apply (C _ _ E). exact Hd.
+  - split; [now destruct (name_ok d s) | simpl; apply andb_false_r].
+Qed.
+
+Lemma dig_absent_named_push fx ov g s k n c :
+  dig_absent g s -> k_dig k <> g -> dig_absent g (fst (file_named_push fx ov s k n c)).
+Proof.
+  intros [A C] Hk. unfold file_named_push.
+  destruct (mem N.eqb n (f_names s)); [split; auto|]. destruct (bad_name n); [split; auto|].
+  destruct (ov && _); [split; auto|]. destruct (_ && _); cbn [fst]; split; cbn [f_d2p f_cas]; auto.
+  rewrite (get_put_neq N.eqb Neqb_spec); auto.
+Qed.
+
+Lemma dig_absent_restore fx ov g tl : forall s, dig_absent g s -> dig_absent g (fst (file_restore fx ov tl s)).
+Proof.
+  induction tl as [|[k n] tl IH]; intros s H; [exact H|]. cbn [file_restore].
+  destruct ((n =? 0) || mem N.eqb n (f_names s)); [now apply IH|].
+  destruct (file_fetch (mkDesc (k_mt k) (k_dig k) (k_size k) 0) s) as [c2|] eqn:Ef; [|now apply IH].
+  assert (Hk : k_dig k <> g).
+  { intro E. destruct (dig_absent_fetch g s (mkDesc (k_mt k) (k_dig k) (k_size k) 0) H E) as [X _]. congruence. }
+  match goal with |- context [file_named_push fx ov s k n ?cc] =>
+    pose proof (dig_absent_named_push fx ov g s k n cc H Hk) as H1;
+    destruct (file_named_push fx ov s k n cc) as [s1 [e|]] end; cbn [fst] in H1.
+  - destruct e as [o|[| |]]; try exact H1. now apply IH.
+  - now apply IH.
+Qed.
+
+Lemma dig_absent_graph g s gr :
+  dig_absent g s -> dig_absent g (mkFile (f_names s) (f_d2p s) (f_disk s) (f_cas s) (f_res s) gr).
+Proof. intros [A C]. split; auto. Qed.
+
+Lemma dig_absent_index g d s : dig_absent g s -> dig_absent g (fst (file_index d s)).
+Proof.
+  intro H. unfold file_index. destruct (is_manifest (d_mt d)); [|now apply dig_absent_graph].
+  destruct (file_fetch d s) as [c1|]; [|exact H]. destruct (d_dig d =? b_hash c1); [now apply dig_absent_graph | exact H].
+Qed.
+
+Lemma dig_absent_index_after fx ov g d s : dig_absent g s -> dig_absent g (fst (file_index_after fx ov d s)).
+Proof.
+  intro H. unfold file_index_after. destruct (is_manifest (d_mt d)); [|now apply dig_absent_index].
+  destruct (file_fetch d s) as [c1|]; [|exact H]. destruct (d_dig d =? b_hash c1); [|exact H].
+  pose proof (dig_absent_restore fx ov g (b_tl c1) s H) as Hr.
+  destruct (file_restore fx ov (b_tl c1) s) as [s2 [e|]]; cbn [fst] in *; [exact Hr | now apply dig_absent_index].
+Qed.
+
+Lemma dig_absent_step fx ig ov g s o :
+  (forall d c, o = Push d c -> d_dig d <> g) -> dig_absent g s -> dig_absent g (fst (file_step fx ig ov s o)).
+Proof.
+  intros Hno H. destruct o; try exact H.
+  - assert (Hd : d_dig d <> g) by (eapply Hno; reflexivity).
+    rewrite file_step_push_split. unfold file_push_store. destruct (d_name d =? 0).
+    + destruct ig.
+      * destruct (is_manifest (d_mt d)); [|exact H]. destruct (verify d c); [|exact H].
+        pose proof (dig_absent_restore fx ov g (b_tl c) s H) as Hr.
+        destruct (file_restore fx ov (b_tl c) s) as [s2 [e|]]; exact Hr.
+      * destruct (get gkey_eqb (gk d) (f_cas s)) eqn:E; [exact H|].
+        destruct (verify d (limit_reader d c)); [|exact H]. apply dig_absent_index_after.
+        destruct H as [A C]. split; cbn [f_d2p f_cas]; auto. intros k c0.
+        destruct (eqb_dec gkey_eqb gkey_eqb_spec k (gk d)) as [->|Hne].
+        -- intros _. exact Hd.
+        -- rewrite (get_put_neq gkey_eqb gkey_eqb_spec) by exact Hne. apply C.
+    + pose proof (dig_absent_named_push fx ov g s (gk d) (d_name d) c H Hd) as H1.
+      destruct (file_named_push fx ov s (gk d) (d_name d) c) as [s1 [e|]]; cbn [fst] in *; [exact H1|].
+      now apply dig_absent_index_after.
+  - cbn [file_step]. destruct (file_fetch d s); exact H.
+  - cbn [file_step]. destruct r; try exact H; (destruct (file_exists d s); [|exact H]; destruct H; split; auto).
+  - cbn [file_step]. destruct r; try exact H; destruct (get ref_eqb _ (r_index (f_res s))); exact H.
+Qed.
+
+(* tagging or fetching content that was never pushed reports not-found (titled successors,
+   IgnoreNoName, DisableOverwrite and the aliasing name included) *)
+Theorem file_absent_notfound fx ig ov h g :
+  (forall d c, In (Push d c) h -> d_dig d <> g) ->
+  let s := fst (runf (file_step fx ig ov) file_init h) in
+  forall d r, d_dig d = g ->
+    snd (file_step fx ig ov s (Fetch d)) = FO (OErr ENotFound) /\
+    snd (file_step fx ig ov s (Exists d)) = FO (OBool false) /\
+    (r <> REmpty -> snd (file_step fx ig ov s (Tag d r)) = FO (OErr ENotFound)).
+Proof.
+  intros Hno s.
+  assert (H : dig_absent g s).
+  { unfold s. clear s. assert (H0 : dig_absent g file_init) by (split; [reflexivity | intros k c X; discriminate]).
+    revert H0 Hno. generalize file_init. induction h as [|o h IH]; intros s0 H0 Hno; [exact H0|].
+    rewrite runf_cons. cbn [fst]. apply IH; [|intros; eapply Hno; right; eauto].
+    apply dig_absent_step; auto. intros d c ->. apply (Hno d c). now left. }
+  intros d r Hd. destruct (dig_absent_fetch g s d H Hd) as [Hf He].
+  cbn [file_step]. rewrite Hf, He. repeat split; auto. intro Hr. destruct r; auto. congruence.
+Qed.
